@@ -433,6 +433,16 @@ func c16Alias(t [][]string) int {
 		for j := i + 1; j < len(t); j++ {
 			if len(t[i]) > 0 && len(t[j]) > 0 && &t[i][0] == &t[j][0] {
 				n++
+				continue
+			}
+			// records that share storage beyond their length: appending to one overwrites the other
+			if ext := t[i][:cap(t[i])]; len(t[j]) > 0 {
+				for k := len(t[i]); k < len(ext); k++ {
+					if &ext[k] == &t[j][0] {
+						n++
+						break
+					}
+				}
 			}
 		}
 	}
@@ -454,10 +464,21 @@ func c16AliasByMutation(t [][]string) int {
 			}
 			before := t[j][0]
 			t[i][0] = before + "\x00mut"
-			if t[j][0] != before {
+			hit := t[j][0] != before
+			t[i][0] = saved
+			if !hit {
+				// … or append to one (within its capacity), see whether the other one changes
+				ext := t[i][:cap(t[i])]
+				for k := len(t[i]); k < len(ext) && !hit; k++ {
+					old := ext[k]
+					ext[k] = before + "\x00app"
+					hit = t[j][0] != before
+					ext[k] = old
+				}
+			}
+			if hit {
 				n++
 			}
-			t[i][0] = saved
 		}
 	}
 	return n
